@@ -57,17 +57,28 @@ def r2(idx, rep):
         rep.check(K.owner_of(idx, fi, {"ResultsRegistrar.register_complete"}) is not None, "R2", f"{fi.file}::{fi.qual} stores status 'complete'",
                   "only the run registrar's register_complete may mark a run complete", K.where(fi, n))
     rep.floor("R2", 1, "'complete' status stores")
-    # complete_run is not called from a handler or a finally block in the run methods
+    # complete_run is not reached from a handler or a finally block in the run methods (directly or through a private helper)
+    ci = idx.cls("CsvPaths")
+    completers = {"complete_run"}
+    grew = True
+    while grew:
+        grew = False
+        for mn, mf in ci.methods.items():
+            if mn.startswith("_") and not mn.startswith("__") and mn not in completers and any(
+                    isinstance(c, ast.Call) and call_name(c) in completers for c in walk_no_nested(mf.node)):
+                completers.add(mn)
+                grew = True
     for m in ("collect_paths", "fast_forward_paths", "next_paths", "next_by_line"):
         fi = idx.method("CsvPaths", m)
         bad = None
-        for t in [n for n in walk_no_nested(fi.node) if isinstance(n, ast.Try)]:
-            for blk in [h.body for h in t.handlers] + [t.finalbody]:
-                for s in blk:
-                    for c in ast.walk(s):
-                        if isinstance(c, ast.Call) and call_name(c) == "complete_run":
-                            bad = "complete_run is called from an exception handler or finally block"
-        calls = [c for c in walk_no_nested(fi.node) if isinstance(c, ast.Call) and call_name(c) == "complete_run"]
+        for fx in [fi] + [ci.methods[h] for h in sorted(completers) if h in ci.methods]:
+            for t in [n for n in walk_no_nested(fx.node) if isinstance(n, ast.Try)]:
+                for blk in [h.body for h in t.handlers] + [t.finalbody]:
+                    for s_ in blk:
+                        for c in ast.walk(s_):
+                            if isinstance(c, ast.Call) and call_name(c) in completers:
+                                bad = f"complete_run is reached from an exception handler or finally block ({fx.qual})"
+        calls = [c for c in walk_no_nested(fi.node) if isinstance(c, ast.Call) and call_name(c) in completers]
         rep.check(bad is None and len(calls) == 1, "R2", f"{fi.file}::CsvPaths.{m} complete_run only on the normal path", bad or f"{len(calls)} call sites", K.where(fi, fi.node))
     # member manifests: completed comes from the csvpath, not a constant
     fr, ok, d = K.returns(idx, "ResultRegistrar", "completed", "self.result.csvpath.completed")
